@@ -157,6 +157,12 @@ type vC08Srv struct {
 	ansTTL uint32 // TTL on its positive answers
 	negTTL uint32 // SOA TTL and MINIMUM on its denials
 	dsTTLs []uint32 // when set: every DS question is answered with one DS record per TTL
+	// aliases the zone publishes (alias driver): "d.<zone>" is a DNAME onto dnameTo (a zone name), and
+	// "c<rest>.<zone>" is a CNAME onto "<rest>.<cnameTo>"; aliasTTL is the TTL of those records
+	dnameTo  string
+	cnameTo  string
+	aliasTTL uint32
+	allExist bool // every name in the zone exists (a re-pointed zone with other content)
 }
 
 type vC08World struct {
@@ -243,7 +249,9 @@ func (w *vC08World) answer(s *vC08Srv, r *dns.Msg) *dns.Msg {
 	neg := func(rcode int) *dns.Msg {
 		reply.Authoritative = true
 		reply.Rcode = rcode
-		reply.Ns = []dns.RR{vC08SOA(s.zone, s.negTTL)}
+		soa := vC08SOA(s.zone, s.negTTL)
+		soa.(*dns.SOA).Serial = uint32(s.id) + 1 // provenance: which server's denial a reply carries
+		reply.Ns = []dns.RR{soa}
 		ent.kind = vC08RespNeg
 		ent.ansTTL = s.negTTL
 		return reply
@@ -321,7 +329,23 @@ func (w *vC08World) answer(s *vC08Srv, r *dns.Msg) *dns.Msg {
 	if name == s.zone {
 		first = "@"
 	}
-	exists := name == s.zone || strings.HasPrefix(first, "w") || strings.HasPrefix(first, "ns")
+	if owner := "d." + s.zone; s.dnameTo != "" && name != owner && dns.IsSubDomain(owner, name) {
+		target := q.Name[:len(q.Name)-len(owner)] + s.dnameTo
+		reply.Authoritative = true
+		reply.Answer = []dns.RR{
+			&dns.DNAME{Hdr: dns.RR_Header{Name: owner, Rrtype: dns.TypeDNAME, Class: dns.ClassINET, Ttl: s.aliasTTL}, Target: s.dnameTo},
+			&dns.CNAME{Hdr: dns.RR_Header{Name: q.Name, Rrtype: dns.TypeCNAME, Class: dns.ClassINET, Ttl: s.aliasTTL}, Target: target},
+		}
+		ent.kind, ent.ansTTL = vC08RespAnswer, s.aliasTTL
+		return reply
+	}
+	if s.cnameTo != "" && name != s.zone && strings.HasPrefix(first, "c") && len(first) > 1 {
+		reply.Authoritative = true
+		reply.Answer = []dns.RR{&dns.CNAME{Hdr: dns.RR_Header{Name: q.Name, Rrtype: dns.TypeCNAME, Class: dns.ClassINET, Ttl: s.aliasTTL}, Target: first[1:] + "." + s.cnameTo}}
+		ent.kind, ent.ansTTL = vC08RespAnswer, s.aliasTTL
+		return reply
+	}
+	exists := name == s.zone || strings.HasPrefix(first, "w") || strings.HasPrefix(first, "ns") || s.allExist
 	if !exists {
 		return neg(dns.RcodeNameError)
 	}
